@@ -157,6 +157,19 @@ class DimEval(Evaluator):
                 return lambda x: lift(x) ** F(1, 2)
             if r[1] == "math.e":
                 return math.e
+        if hasattr(r, "node") and hasattr(r, "qual") and isinstance(r.node, ast.FunctionDef):
+            # a helper of the package (e.g. the table-driven form of the library): evaluated in the same domain
+            helper = r
+
+            def call_helper(*args, **kwargs):
+                return DimEval(self.tree, helper, {}).run_function(helper.node, list(args), kwargs)
+            return call_helper
+        if isinstance(r, tuple) and r and r[0] == "value":
+            sub = DimEval(self.tree, self.fi, {})
+            return sub.ev(r[2])
+        if node.id in ("dict", "list", "tuple", "zip", "enumerate", "len", "range", "sorted", "float", "int", "str"):
+            return {"dict": dict, "list": list, "tuple": tuple, "zip": zip, "enumerate": enumerate, "len": len, "range": range, "sorted": sorted,
+                    "float": float, "int": int, "str": str}[node.id]
         raise Unsupported("name %s" % node.id)
 
     def ev_Attribute(self, node):
